@@ -138,7 +138,7 @@ def gen_case(r, index, tier):
             ops.append(o)
     elif scen == "floorset":
         ops.append({"op": "floorset", "inst": _gen_floorset(r), "tam": False, "density": r.choice([None, None, 0.5, 0.9]),
-                    "times": r.randint(1, 3), "to": r.choice(["file", "string"])})
+                    "times": r.randint(1, 3), "to": r.choice(["file", "string"]), "die_first": r.chance(0.4)})
     elif scen == "rect":
         desc = designs.gen_allocation(r, allow_fixed=False, allow_empty=True, drop_cells=False, slivers=False, nmods=r.randint(1, 4))
         ops.append({"op": "load_alloc", "alloc": desc, "via": "tree"})
@@ -837,17 +837,32 @@ def _op_floorset(ctx, o):
     def obj_sem():
         return canon({"modules": fp.modules, "nets": [[list(e.modules), e.weight] for e in fp.nets], "shape": fp.shape})
 
-    before = obj_sem()
     docs, ddocs = [], []
+    pre_die = None
+    if o.get("die_first"):
+        # the die document is asked for before anything else has looked at the instance
+        try:
+            pre_die = fp.write_yaml_DIEF()
+        except Exception as e:
+            ctx.v("producer raised", dict(key, exc=type(e).__name__, write="die first"), {"exc": repr(e)[:300]})
+            return "producer raised"
+    before = obj_sem()
     for i in range(o.get("times", 1)):
         try:
+            die_first = False
             if o["to"] == "string":
+                if die_first:
+                    ddocs.append(fp.write_yaml_DIEF())
                 docs.append(fp.write_yaml_FPEF())
-                ddocs.append(fp.write_yaml_DIEF())
+                if not die_first:
+                    ddocs.append(fp.write_yaml_DIEF())
             else:
                 p1, p2 = ctx.path("FPEF"), ctx.path("DIEF")
+                if die_first:
+                    fp.write_yaml_DIEF(p2)
                 fp.write_yaml_FPEF(p1)
-                fp.write_yaml_DIEF(p2)
+                if not die_first:
+                    fp.write_yaml_DIEF(p2)
                 docs.append(ctx.fs.text(p1))
                 ddocs.append(ctx.fs.text(p2))
         except Exception as e:
@@ -856,6 +871,8 @@ def _op_floorset(ctx, o):
     if obj_sem() != before:
         ctx.v("producing a document altered the object", key, {"before": before, "after": obj_sem()})
         return "object altered"
+    if pre_die is not None:
+        ddocs.insert(0, pre_die)
     if any(d != docs[0] for d in docs[1:]) or any(d != ddocs[0] for d in ddocs[1:]):
         ctx.v("repeated writes give different documents", key, {"first": docs[0][-400:], "other": docs[-1][-400:]})
         return "writes differ"
